@@ -1020,7 +1020,11 @@ func (g *ReadGen) leaf(res string) Node {
 		case 2:
 			return Node{Op: g.cmpOp(), F: g.pick([]string{"first_usage", "insertion_date", "updated_at"}), N: g.instant()}
 		case 3:
-			return Node{Op: g.cmpOp(), F: "balance", K: g.pick(rdAssets), N: g.R.Intn(8) - 3}
+			n := Node{Op: g.cmpOp(), F: "balance", K: g.pick(rdAssets), N: g.R.Intn(8) - 3}
+			if g.R.Intn(5) == 0 {
+				n.K = "" // balance without asset: judged by its own predicate (TraceReads!Step_C20_AcctBalanceNoAsset)
+			}
+			return n
 		default:
 			return g.metaLeaf()
 		}
@@ -1105,6 +1109,16 @@ func (g *ReadGen) maybeFilter(res string, pct int) Node {
 		return TrueNode()
 	}
 	n := g.Filter(res, 1+g.R.Intn(4))
+	if (res == "volumes" || res == "agg") && g.R.Intn(8) == 0 {
+		// directed shape: a partial address pattern OR-ed / AND-ed with an $in on the address (the case the lateral
+		// push-down rule must judge), possibly next to a metadata leaf
+		in := Node{Op: "in", F: "address", SS: []string{g.pick(rdAddrs), g.pick(rdAddrs)}}
+		pat := Node{Op: "match", F: "address", SG: strings.Split(g.pick(rdPatterns[5:]), ":")}
+		n = Node{Op: g.pick([]string{"or", "or", "and"}), Args: []Node{pat, in}}
+		if g.R.Intn(3) == 0 {
+			n = Node{Op: "or", Args: []Node{n, g.metaLeaf()}}
+		}
+	}
 	n.norm()
 	return n
 }
@@ -1139,7 +1153,8 @@ func (g *ReadGen) Read() ReadQ {
 		q.Res = "agg"
 		q.Pit = g.pit()
 		q.Ins = g.R.Intn(2) == 0
-		q.Filter = g.maybeFilter("agg", 50)
+		// aggregated balances of ALL accounts are zero per asset (double entry): mostly filtered, so that they discriminate
+		q.Filter = g.maybeFilter("agg", 85)
 	case r < 58:
 		q.Res = "accounts"
 		q.Pit = g.pit()
